@@ -149,8 +149,8 @@ getpwnam(const char *n)
 /* ================= in-memory spool ================= */
 #define HX_QDIRFD	900		/* what the daemon's qdirfd is set to */
 #define HX_FDBASE	1000
-#define HX_NFILES	48
-#define HX_NFDS		32
+#define HX_NFILES	256
+#define HX_NFDS		160
 #define HX_SPOOLPATH	"/hx-spool"
 
 struct hx_file_s {
@@ -677,6 +677,45 @@ hx_exit_child(int i, int st)
 	c->rpid = c->pid;
 	c->rstatus = st;
 	ev_feed_event(hx_ctx->loop, c, EV_CHILD);
+	return hx_iterate();
+}
+
+/* The exit of live child I is noticed in the same loop iteration in which the clock reaches TO.  libev learns about
+ * exits from a signal watcher of the highest priority whose callback queues the child watchers' events; these land
+ * behind the periodics' events of that iteration and are therefore invoked before them.  A check watcher of the
+ * highest priority reproduces that order. */
+static ev_check hx_chk;
+static ev_child *hx_pend_exit;
+static int hx_pend_st;
+
+static void
+hx_chk_cb(struct ev_loop *loop, ev_check *w, int revents)
+{
+	(void)w, (void)revents;
+	if (hx_pend_exit != NULL) {
+		ev_child *c = hx_pend_exit;
+		hx_pend_exit = NULL;
+		c->rpid = c->pid;
+		c->rstatus = hx_pend_st;
+		ev_feed_event(loop, c, EV_CHILD);
+	}
+}
+
+static int
+hx_tick_exit(double to, int i, int st)
+{
+	if (hx_chk.cb == NULL) {
+		ev_check_init(&hx_chk, hx_chk_cb);
+		ev_set_priority(&hx_chk, EV_MAXPRI);
+	}
+	if (!ev_is_active(&hx_chk)) {
+		ev_check_start(hx_ctx->loop, &hx_chk);
+	}
+	if (to > hx_now) {
+		hx_now = to;
+	}
+	hx_pend_exit = hx_chld[i];
+	hx_pend_st = st;
 	return hx_iterate();
 }
 
